@@ -37,6 +37,11 @@ def judge(cfg, name, args):
                 name, tuple(vals), ts, type(e).__name__, e, exp[1:])), prog
         return None, prog
     got, gts = opgrid.results(m, n)
+    # an operator must not alter its operands: their reported values are the ones they were created with
+    for i, a in enumerate(args):
+        if a[0] in "IB" and m.refval(i) != int(a[2]):
+            return ("operand-altered", "%s%r on %s changed the reported value of operand %d from %d to %d" % (
+                name, tuple(vals), ts, i, int(a[2]), m.refval(i))), prog
     if exp is refsem.SKIP:
         return None, prog
     ex = explain(name, ts, vals, got)
@@ -120,8 +125,29 @@ def pow_grid_shard(b, p):
     return stats
 
 
+def wide_grid_shard(p):
+    """operands that need more than 53 bits (bitlength 64): integer arithmetic must stay exact"""
+    stats = core.Stats()
+    known = core.load_known("C05")
+    found = {}
+    cfg = {"p": p, "b": 64, "r": 0, "ignore": False}
+    base = [(1 << 61) + 11, (1 << 53) + 1, (1 << 62) - 1, -((1 << 61) + 7), 3 * ((1 << 60) + 1), (1 << 63) - 25, 12345678901234567891]
+    divs = [1, 3, 7, -5, (1 << 20) + 1, (1 << 31) - 1]
+    for name in ("truediv", "floordiv", "mod", "mul", "add", "sub", "lt", "ge", "eq"):
+        for ts in ("II", "Ii", "iI"):
+            for x in base:
+                for d in divs:
+                    for xx in ((x, d), (x * d, d), (d * 3, x)):
+                        args = [(ts[0], "priv", xx[0]), (ts[1], "pub", xx[1])]
+                        res, prog = judge(cfg, name, args)
+                        stats.case([name, ts, list(xx), 64], True, ("op:" + name, "wide-grid"), sample_cap=1)
+                        record(stats, known, res, prog, name, ts, found)
+    stats.violations = list(found.values())
+    return stats
+
+
 def draw_case(draw):
-    b = draw(st.sampled_from([2, 3, 4, 5, 8, 16, 16, 32]))
+    b = draw(st.sampled_from([2, 3, 4, 5, 8, 16, 16, 32, 64]))
     cfg = {"p": draw(st.sampled_from(sorted(REAL_FIELDS))), "b": b, "r": 0, "ignore": False}
     name = draw(st.sampled_from(OPS))
     combos = [ts for ts in opgrid.type_combos(name) if "F" not in ts and "f" not in ts]
@@ -143,6 +169,12 @@ def draw_case(draw):
         if t == "b":
             v = bool(v)
         args.append((t, draw(st.sampled_from(["priv", "pub"])), v))
+    if name == "truediv" and "B" not in ts and "b" not in ts and draw(st.booleans()):
+        # exact division with a wide dividend: x = q * y
+        y = args[1][2]
+        q = draw(st.one_of(ints, st.integers(-(lim * lim), lim * lim)))
+        if y:
+            args[0] = (args[0][0], args[0][1], q * y)
     return cfg, name, ts, args
 
 
@@ -217,6 +249,7 @@ def run(ctx):
                                          [dict(cells=c, b=b, p=p) for c in chunks]).to_json())
     total.merge_json(core.run_shards("harness.checks.c05", "pow_grid_shard",
                                      [dict(b=bb, p=pp) for bb, pp in ((16, "bn128"), (9, "bls12-381"), (32, "curve25519"))]).to_json())
+    total.merge_json(core.run_shards("harness.checks.c05", "wide_grid_shard", [dict(p=pp) for pp in ("bn128", "bls12-381")]).to_json())
     total.merge_json(core.run_shards("harness.checks.c05", "random_shard",
                                      [dict(seed=ctx.seed * 1000 + i, n_examples=nrand) for i in range(nshards)]).to_json())
     total.extra["grids_enumerated_completely"] = [{"bitlength": b, "field": p, "cells": len(cs)} for b, p in grids]
